@@ -1,13 +1,14 @@
 --------------------------- MODULE MC_SourceView ---------------------------
 (* Every text of <= MaxText characters over {LF, CR, 'a', U+1F60D} x every  *)
 (* request history of depth <= Depth: each answer equals the declarative    *)
-(* one regardless of history; the index stays a prefix of the line list.    *)
+(* one regardless of history (cloning the view in mid-session included);   *)
+(* the index stays a prefix of the line list.                               *)
 EXTENDS SourceView, TLC, Json
 CONSTANTS MaxText, Depth, Slices
 Alphabet == {LF, CR, 97, 128525, 11}      \* 11 = vertical tab: a control character that does NOT end a line
 Ops == IF Slices
        THEN {[op |-> "slice", line |-> ln, c |-> c, n |-> n] : ln \in 0..2, c \in {0, 1, 2, 3, MAXU}, n \in {0, 1, 2, 3, MAXU}}
-       ELSE {[op |-> "get_line", i |-> i] : i \in 0..(MaxText + 1)} \cup {[op |-> "line_count"], [op |-> "lines"]}
+       ELSE {[op |-> "get_line", i |-> i] : i \in 0..(MaxText + 1)} \cup {[op |-> "line_count"], [op |-> "lines"], [op |-> "clone"]}
 VARIABLES phase, text, st, hist, lastret
 vars == <<phase, text, st, hist, lastret>>
 Init == phase = "build" /\ text = <<>> /\ st = SvInit /\ hist = <<>> /\ lastret = <<>>
@@ -33,6 +34,19 @@ RepLemma == \A n \in 0..3 : \A sep \in {<<LF>>, <<CR>>, <<CR, LF>>} : \A unit \i
     LET t == RepText(unit, sep, n) IN
     /\ Len(Lines(t)) = RepCount(n)
     /\ \A i \in 0..(n + 1) : DeclLine(t, i) = RepLine(unit, n, i)
+SmallSegs == UNION {[1..n -> {<<97, ln, sp>> : ln \in 0..2, sp \in 0..2}] : n \in 0..2}
+SegLemma == \A segs \in SmallSegs : SegsOK(segs) =>
+    /\ Len(Lines(SegText(segs))) = Len(segs) + 1
+    /\ \A i \in 0..(Len(segs) + 1) : DeclLine(SegText(segs), i) = SegLine(segs, i)
+\* ... and the side condition is needed: without it the lemma fails somewhere
+SegSideConditionNeeded == \E segs \in SmallSegs : ~SegsOK(segs) /\ Len(Lines(SegText(segs))) # Len(segs) + 1
+\* the lemmas are constant-level: TLC evaluates them once, before the state space
+ASSUME RepLemma
+ASSUME SegLemma
+ASSUME SegSideConditionNeeded
+SegSliceLemma == \A ch \in {97, 128525} : \A len \in 0..4 : \A c \in (0..9) \cup {MAXU} : \A n \in (0..9) \cup {MAXU} :
+    SliceChars(DeclSlice(SegUnit(<<ch, len, 0>>), c, n)) = SegSlice(ch, len, c, n)
+ASSUME SegSliceLemma
 EmitCase == (phase = "use" /\ Len(hist) = Depth) =>
     PrintT("CASE " \o ToJson([op |-> "view", text |-> text, calls |-> hist]))
 =============================================================================
